@@ -50,6 +50,21 @@ def run(tier, seed, replay=None):
                         g.append((l, fill, tracing, maxc))
                         lines.append(l)
             groups.append(g)
+    # probe stream (C12_zero stated on the real loader): tiny programs WITH a symbol table whose exit value is one word just
+    # behind the image - the words a loader's staging of the debug section could leave behind.  Expected exit value: 0.
+    probes = []
+    if not replay:
+        names = ["main", "f", "a_procedure_with_a_long_name", "zz" * 20]
+        for k in range(0, 24 if tier == "quick" else 200):
+            for fill in (0xA5, 0xFF):
+                code = [0x97, 0, 0, 0] + list((1000).to_bytes(4, "little"))
+                code += G.enc(0x0, 8 + k) + [0x11, 0x82, 0x30, 0xD3]      # LDAM 8+k; LDBM 1; STAI 2; LDAC 0; SVC (exit)
+                code += [0] * (32 - len(code))
+                dbg = [(names[(k + i) % len(names)] + str(i), 8 * (i > 0)) for i in range(1 + k % 3)]
+                f = G.image_file(code, dbg)
+                l = f"run 0 0 1 4000 {format(fill, 'x')} {''.join(format(x, '02x') for x in f)} - -"
+                probes.append(l)
+        lines += probes
     real = C.drive_parallel(h, lines, workdir=True)
     # the same cases once more with another allocator fill (heap contents are host memory too: buffers the loader allocates)
     env2 = dict(os.environ)
@@ -63,6 +78,11 @@ def run(tier, seed, replay=None):
     for l, o1, o2 in zip(lines, real, real2):
         if o1 != o2:
             viol.append({"kind": "host-memory dependence (allocator fill 0xbe vs 0x00)", "inputs": [l, l], "observations": [o1, o2]})
+    for l in probes:
+        o = fields(obs[l])
+        if not (o[0] == "ret" and int(o[1], 16) == 0):
+            viol.append({"kind": "a word not covered by the loaded image does not read as zero (exit value of the probe is that word)",
+                         "inputs": [l], "observations": [obs[l]]})
     corr = []
     classes = Counter()
     nontriv = set()
@@ -94,6 +114,9 @@ def run(tier, seed, replay=None):
         for l, fill, tracing, maxc in g:
             if tracing == 0 and l in model and model[l] != obs[l]:
                 corr.append((l, obs[l], model[l]))
+    for l in probes:
+        if model.get(l) != obs[l]:
+            corr.append((l, obs[l], model.get(l)))
 
     # thorough tier: the built hexsim EXECUTABLE under varied environment size (moves the stack, where the
     # Processor object lives) and ASLR (on by default), several launches each
@@ -144,7 +167,7 @@ def run(tier, seed, replay=None):
         "samples": [lines[0][:300], lines[-1][:300]],
         "traces_validated_against_impl": len(model_in) - len(corr),
         "outcome_classes": dict(classes), "model_vs_impl_mismatches": len(corr),
-        "property_violations": len(viol),
+        "property_violations": len(viol), "zero_probes_behind_image": len(probes),
         "executable_level": exe_level,
     })
     rep.assumptions += ["dirty host memory is represented by the bytes of the Processor object's storage before construction"]
